@@ -131,10 +131,18 @@ func runC09(a *args) error {
 				isDown[n] = true
 				d.c.nodes[n].setUnreachable(true)
 			}
-			fc := fanCase{Kind: "search", K: k, Entry: entry, Down: down, Determined: !replicated}
+			fc := fanCase{Kind: "search", K: k, Entry: entry, Down: down}
+			searchRec.mu.Lock()
+			searchRec.on, searchRec.msgs = true, nil
+			searchRec.mu.Unlock()
 			ctx, cancel := context.WithTimeout(context.Background(), 2*time.Second)
 			res, serr := d.c.nodes[entry].datasets[d.id].Search(ctx, q, uint(k))
 			cancel()
+			time.Sleep(time.Millisecond) // workers still running after an early error return have recorded by now
+			searchRec.mu.Lock()
+			recorded := searchRec.msgs
+			searchRec.on = false
+			searchRec.mu.Unlock()
 			for _, n := range down {
 				d.c.nodes[n].setUnreachable(false)
 			}
@@ -147,31 +155,31 @@ func runC09(a *args) error {
 				fc.Obs = "ok"
 				fc.ObsItems = resOf(res)
 			}
-			// worker messages: per node hosting partitions
-			byNode := map[uint64][]uuid.UUID{}
-			for i, pl := range d.placement {
-				byNode[pl[0]] = append(byNode[pl[0]], d.c.nodes[pl[0]].datasets[d.id].VerifPartitionId(i))
-			}
-			var ns []uint64
-			for n := range byNode {
-				ns = append(ns, n)
-			}
-			sort.Slice(ns, func(x, y int) bool { return ns[x] < ns[y] })
-			for _, n := range ns {
-				if isDown[n] && fc.Determined {
-					fc.Msgs = append(fc.Msgs, fanMsg{Err: true, Node: n})
-					continue
+			// the actual worker messages, one per node the search fanned out to
+			sort.Slice(recorded, func(x, y int) bool { return recorded[x].node < recorded[y].node })
+			for _, m := range recorded {
+				fm := fanMsg{Node: m.node, Err: m.err}
+				for _, it := range m.items {
+					fm.Items = append(fm.Items, hnRes{Id: uuid.FromBytesOrNil(it.GetId()).String(), Score: math.Float32bits(it.GetScore())})
 				}
-				ctx2, c2 := context.WithTimeout(context.Background(), 2*time.Second)
-				pr, perr := d.c.nodes[n].datasets[d.id].SearchPartitions(ctx2, byNode[n], q, uint(k))
-				c2()
-				if perr != nil {
-					return fmt.Errorf("reference SearchPartitions failed: %v", perr)
+				fc.Msgs = append(fc.Msgs, fm)
+			}
+			// a worker that had not answered when the search returned early with an error is not in the record:
+			// the model check below needs the full worker set, so such cases are only checked by the oracle
+			fc.Determined = true
+			if serr != nil {
+				byNodeCnt := map[uint64]bool{}
+				for _, pl := range d.placement {
+					if !replicated {
+						byNodeCnt[pl[0]] = true
+					}
 				}
-				fc.Msgs = append(fc.Msgs, fanMsg{Items: resOf(pr), Node: n})
+				if replicated || len(recorded) != len(byNodeCnt) {
+					fc.Determined = false
+				}
 			}
 			// Go-side oracle for replicated datasets: success => exact top-k of the union; all replicas of a partition down => error
-			if !fc.Determined {
+			{
 				mustFail := false
 				for _, pl := range d.placement {
 					all := true
